@@ -9,6 +9,8 @@ THEOREMS = ['C09_empty', 'C09_step_inv', 'C09_step_primitive', 'C09_history_inv'
             'C09_subst_dup_port_refuted', 'C09_subst_cell_port_refuted', 'C09_subst_designated_port_refuted',
             'C09_subst_fork_output_refuted', 'C09_resolve_removed_instance_refuted', 'C09_resolve_removed_instance_ok',
             'C09_substitute_example', 'C09_example3']
+THEOREMS += ['C09_prims_source_is_model', 'C09_ceq_respected', 'C09_prims_source_step', 'C09_prims_source_history',
+             'C09_prims_source_example']
 
 LIB_NETLIST = '''module m (a, b, c, y, z); input a, b, c; output y, z;
   %s u1 (%s);
@@ -90,7 +92,22 @@ def verilog_regression():
 
 
 def run(ck):
-    ck.prove('C09', THEOREMS)
+    from vcheck import gen_all, core
+    # translation (tie T): Gen/CircuitPrimsSrc.v is regenerated from the current text of circuit.py; C09_prims_source_is_model then
+    # re-proves that the translated primitives are the hand-written primitives of Model/Circuit.v
+    res = gen_all.generate(['CircuitPrimsSrc'])
+    ck.obligation('translate circuit.py primitives -> Gen/CircuitPrimsSrc.v', res['CircuitPrimsSrc'] is None, 'translation',
+                  res['CircuitPrimsSrc'] or '')
+    ck.trust('translator translate/gen_circuit_prims.py (fail-closed, type-directed Python-ast translation of GrowingList.__setitem__ / '
+             'free_index, IndexList.__delitem__, Node.__init__ / remove, Line.__init__ / remove into state-passing Gallina over the state '
+             'type of Model/Circuit.v; class headers, the methods the two list classes define and the containers of Circuit.__init__ are '
+             'pinned; vocabulary Model/CircuitPrimsSrcLib.v: object identity = creation-order id, attribute = record field, obj.circuit = '
+             'liveness flag, list attribute = pin list, dict = association list, int = Z); its output is additionally run against the real '
+             'classes on every history')
+    proved, _ = ck.prove('C09', THEOREMS)
+    src_ok = res['CircuitPrimsSrc'] is None and core.coq_make(['theories/Gen/CircuitPrimsSrc.vo'] + core.support_targets())[0]
+    if not proved and not src_ok:
+        core.coq_make(core.support_targets())     # the models must exist for the correspondence even when a proof broke
     rng = random.Random(ck.seed * 7919 + 9)
     lens = [8, 25, 60, 120, 200] if not ck.thorough else [25, 100, 200, 400, 400]
     hs = []
@@ -129,21 +146,35 @@ def run(ck):
             found.append(h)
     # --- model = implementation, state by state --------------------------------------------------------
     parts = chunks_by_steps(hs, ck.scale(14, 56))
-    outs = ck.coq_eval_many('hist', [ce.cases_file([hs[i]['steps'] for i in part]) for part in parts], jobs=14, timeout=1500)
+    src_every = ck.scale(1, 1)
+    mk_file = (lambda x: ce.cases_file_both(x, src_every)) if src_ok else ce.cases_file
+    outs = ck.coq_eval_many('hist', [mk_file([hs[i]['steps'] for i in part]) for part in parts], jobs=14, timeout=1500)
     bad, ran = [], True
+    bad_src, ran_src = [], src_ok
     for part, (ok, out) in zip(parts, outs):
-        pairs = ce.parse_pairs(out) if ok else None
+        pairs, pairs_src = ce.parse_pairs_both(out) if ok else (None, None)
         if pairs is None:
             ran = False
             bad.append(('coq', out[-300:]))
-            continue
-        bad += [(part[ci], k) for ci, k in pairs]
+        else:
+            bad += [(part[ci], k) for ci, k in pairs]
+        if src_ok:
+            if pairs_src is None:
+                ran_src = False
+                bad_src.append(('coq', out[-300:]))
+            else:
+                bad_src += [(part[ci], k) for ci, k in pairs_src]
     n_steps = sum(len(h['steps']) for h in hs)
     n_clean = sum(1 for h in hs for s in h['steps'] if s[1])
     ck.obligation(f'Coq model of circuit.py (Node/Line/IndexList/GrowingList, remove_dangling_nodes, eliminate_1to1_forks, substitute, '
                   f'resolve_tlib_cells, copy, pickle) = implementation on {len(hs)} edit histories / {n_steps} steps: node table, line table, '
                   f'cells/forks dicts, io list and stats after EVERY step (and which calls raise); on the {n_clean} well-formed steps also '
                   f'pre = true, cinv_b(model state) = true and io_ok_b(model state) = true', ran and not bad, 'correspondence', f'failing (history, step): {bad[:6]}')
+    if res['CircuitPrimsSrc'] is None:
+        ck.obligation(f'translated source Gen/CircuitPrimsSrc.v = implementation on {"every second one" if src_every == 2 else "each"} of the same {len(hs)} histories: every '
+                      'Node() / Line() / Line.remove / Node.remove / io_nodes[..] = n step is executed by the translated primitives (the composite '
+                      'operations by the hand model), full state after every step and which calls raise', ran_src and not bad_src,
+                      'correspondence', f'failing (history, step): {bad_src[:6]}' if src_ok else 'Gen/CircuitPrimsSrc.v does not compile')
     # --- library cells (D9 regression) -------------------------------------------------------------------
     n_lib, lib_fails = library_sweep(ck)
     vr = verilog_regression()
